@@ -84,6 +84,21 @@ QSumOb(a, b, gq, gt, exact) ==
   ELSE << Ob("abse", "eq", IF exact THEN RAdd(E0(a.e), RMul(E0(b.e), gq)) ELSE None,
              TAdd(TQ(E0(a.e)), TMul(TQ(E0(b.e)), gt))) >>
 
+\* a read-only query of the value in another unit (value(w)) leaves the quantity as it is: same uncertainty, same
+\* relative uncertainty
+QueryOb(m) ==
+  IF IsNone(m.e) THEN << Ob("abse", "none", RZero, TQ(RZero)) >>
+  ELSE << Ob("abse", "eq", m.e, TQ(m.e)),
+          Ob("rele", "eq", RDiv(RMul(RInt(100), m.e), m.v), TDiv(TMul(TQ(RInt(100)), TQ(m.e)), TQ(m.v))) >>
+
+\* quotient of quantities given in different units u, w of ONE dimension: the result is a pure number and the factor
+\* g = F(u)/F(w) is folded into it - a linear conversion of the quotient, so every obligation on the uncertainty of a/b
+\* is scaled by g
+ScaleOb(o, gq, gt, exact) ==
+  IF o.rel = "none" THEN o ELSE Ob(o.lhs, o.rel, IF exact THEN RMul(o.q, gq) ELSE None, TMul(o.t, gt))
+QDivOb(a, b, gq, gt, exact) ==
+  LET obs == IdealOb("div", a, b, ROne) IN [i \in DOMAIN obs |-> ScaleOb(obs[i], gq, gt, exact)]
+
 -----------------------------------------------------------------------------
 \* the machine: formulas of the code
 AbsDiff(x, y) == RAbs(RSub(x, y))
@@ -108,6 +123,8 @@ Scaled == "error_not_scaled" \in FixedDevs
 MConvErr(m, fq) == IF Scaled /\ ~IsNone(m.e) THEN RMul(m.e, fq) ELSE m.e      \* UnitType.convert (error passed through before 3decc72)
 MQSumErr(a, b, gq) == IF IsNone(a.e) /\ IsNone(b.e) THEN None
                       ELSE RAdd(E0(a.e), IF Scaled THEN RMul(E0(b.e), gq) ELSE E0(b.e))
+
+MQDivErr(a, b, gq) == LET e == MErr("div", a, b, ROne) IN IF IsNone(e) THEN None ELSE RMul(e, gq)   \* magnitude *= factor
 
 \* does a predicted error satisfy an obligation list (abse obligations only; the exact model)
 SatOb(o, e) ==
